@@ -244,5 +244,10 @@ Section WithL.
   (* a history: each Add comes with the place where an allocation fails (NoFail = none) *)
   Definition run_f (ops : list (alloc_fail * list col)) : state :=
     fold_left (fun st op => after st (add_f (fst op) st (snd op))) ops init.
+  (* the cxx2coq translation of the real Contains (Gen_List.v) on the members of st; resOffset = the pointer argument
+     (0 = nullptr); result (answer, value written through resOffset or 0).  contains_refines (Inv.v): it IS `contains` *)
+  Definition contains_gen (st : state) (resOffset code : Z) : bool * Z :=
+    Gen_List.Contains GetVertices (fun c => mem c (codeSet st)) (codeParam st) (addends st) (totalSize st) (alignment st) resOffset code.
+
   Definition run (ops : list (list col)) : state := fold_left (fun st cs => after st (add st cs)) ops init.
 End WithL.
